@@ -121,7 +121,9 @@ func (c *Case) Pick(label string, n int) int { return c.Int(label, 0, n-1) }
 func (c *Case) OneOf(label string, xs ...string) string { return xs[c.Pick(label, len(xs))] }
 
 // Dur draws one of the given durations.
-func (c *Case) Dur(label string, xs ...time.Duration) time.Duration { return xs[c.Pick(label, len(xs))] }
+func (c *Case) Dur(label string, xs ...time.Duration) time.Duration {
+	return xs[c.Pick(label, len(xs))]
+}
 
 // Weighted draws a key of w with probability proportional to its weight
 // (keys in the given order so the draw is stable).
